@@ -44,3 +44,9 @@ package ovsdb
 //@ requires r != nil
 //@ modifies r.Old, r.New
 //@ ensures r.Old == ru2.Old && r.New == ru2.New
+
+//@ func (TableSchema).Column
+//@ pure
+//@ func (DatabaseSchema).Table
+//@ modifies nothing
+//@ ensures (tableName in schema.Tables) ==> result != nil
